@@ -145,6 +145,12 @@ def tdmd(ctx, shape, variant, ortho_l, ortho_r, perm, theta=False):
         log = state.S.stub_log
         eigs = [c for c in log if c.kind == 'eig']
         ctx.check('same SVD sequence as the global SVD of x, then one eigen-solve', len([c for c in log if c.kind == 'svd']) == n_svd and len(eigs) == 1)
+        if theta and len(eigs) == 1:
+            # the rank kept by the pseudoinverse of x is the number of singular values of the LAST (global) SVD above the relative cut -- stated on the
+            # environment's answer, not through TT.svd, so that a cut lost inside TT.svd is seen here too
+            from .C04 import _cut_ok
+            mid = [c for c in log if c.kind == 'svd'][-1]
+            _cut_ok(ctx, 'tdmd_%s(threshold): rank of the reduced matrix %d' % (variant, eigs[0].A.shape[0]), mid, eigs[0].A.shape[0], th, True, None)
         k = s.shape[0]
         U = D.tt_full_open(ctx, u.cores).reshape(-1, k)
         V = D.tt_full_open(ctx, v.cores).reshape(k, m)                  # Vh (times the trailing cores)
